@@ -63,6 +63,7 @@ class ExportSim:
         world = worldgen.gen_world(rng, max_n=5 if big else 4, max_faces=12 if big else 8, max_vars=1, with_time=False,
                                    allow_perm=False, materialise=rng.choice(['memory', 'memory', 'file']))
         ops = []
+        shared_stem = rng.random() < 0.4      # several formats of one dataset next to each other under one name (cells.geojson, cells.shp, ...)
         for k in range(rng.choice([1, 1, 2, 3])):
             fmt = rng.choice(FORMATS)
             if fmt == 'shapefile':
@@ -83,10 +84,11 @@ class ExportSim:
                     kind = rng.choice(['EACCES', 'ENOSPC', 'EMFILE'])
                 faults.append({'seam': seam, 'nth': nth, 'kind': kind})
             end = 'crash_after_ack' if rng.random() < 0.4 else 'exit'
-            ops.append({'op': 'export', 'fmt': fmt, 'target': target, 'name': f'geom{k}', 'faults': faults, 'end': end})
+            name = 'cells' if shared_stem else f'geom{k}'
+            ops.append({'op': 'export', 'fmt': fmt, 'target': target, 'name': name, 'faults': faults, 'end': end})
             if faults:
                 ops.append({'op': 'export', 'fmt': fmt, 'target': target, 'retry': True,
-                            'name': f'geom{k}' if rng.random() < 0.6 else f'retry{k}', 'faults': [], 'end': 'exit'})
+                            'name': name if rng.random() < 0.6 else f'retry{k}', 'faults': [], 'end': 'exit'})
         plan = {'engine': self.name, 'world': world, 'ops': ops}
         # history: another dataset of the same convention with the same number of cells but another shape, exported
         # earlier by the same process (anything remembered per convention / per size must not leak into this export)
@@ -129,6 +131,7 @@ class ExportSim:
         world = worldgen.World(plan['world'])
         sig = []
         judged = False
+        acked_files = {}
         for k, step in enumerate(plan['ops']):
             res = lifetimes.run_lifetime(_export_lifetime, plan['world'], step, scratch, plan.get('earlier_world') if step.get('earlier') else None)
             if res['status'] in ('harness_error', 'timeout'):
@@ -173,6 +176,25 @@ class ExportSim:
             self.judge(out, world, step, pre, got)
             out.event('judged', step=k, fmt=step['fmt'], n_cells=None if not pre else sum(p is not None for p in pre['polygons']),
                       new_violations=len(out.violations) - n_before)
+            acked_files[(step['name'], step['fmt'])] = (k, step, got)
+        # an acknowledged export stays readable: nothing emsarray does afterwards (a later export of another format under
+        # the same name, a later export that fails and cleans up) may damage it.  A later export to the very same file
+        # replaces it, whatever happens to that later export, and is not compared.
+        for (name, fmt), (k, step, got) in sorted(acked_files.items()):
+            later = [j for j, st in enumerate(plan['ops']) if j > k]
+            if not later or any(plan['ops'][j]['name'] == name and plan['ops'][j]['fmt'] == fmt for j in later):
+                continue
+            rb = lifetimes.run_lifetime(_readback_lifetime, step, scratch)
+            if rb['status'] != 'exit':
+                out.harness_error = f'readback failed: {rb["error"]}'
+                return
+            again = rb['obs']['readback']
+            out.stats['probe.earlier_export_read_again_at_the_end'] += 1
+            if json.dumps(again, sort_keys=True, default=str) != json.dumps(got, sort_keys=True, default=str):
+                out.violate('C15', 'earlier-export-damaged', None,
+                            f"the acknowledged {fmt} export {name}{EXT[fmt]} (step {k}) no longer reads back as it did: "
+                            f"{str(again.get('error') or 'content differs')[:200]} after later steps {[(plan['ops'][j]['fmt'], plan['ops'][j]['name']) for j in later]}")
+            out.event('reread', step=k, same=json.dumps(again, sort_keys=True, default=str) == json.dumps(got, sort_keys=True, default=str))
         holes = bool(plan['world'].get('holes') or plan['world'].get('nan_nodes'))
         out.signature = (world.conv, plan['world']['materialise'], holes, tuple(sig))
         out.nontrivial = {'C15': judged}
